@@ -486,6 +486,16 @@ impl Server {
             });
         }
 
+        // a name that leads out of the library ("../new" from a note at its top) is refused: the
+        // edit would delete the note and create a file above the library
+        if new_key.to_string().split('/').next() == Some("..") {
+            return Result::Err(ResponseError {
+                code: 1,
+                message: format!("The file name {} is outside of the library", params.new_name),
+                data: None,
+            });
+        }
+
         Result::Ok(
             self.parser(
                 &params
